@@ -45,9 +45,9 @@ def idle_of(name, ns):
 
 def gen_cases(rng, tier, names=None, per=None):
     """-> list of (name, ns, fs, ins, regime)"""
-    hi = 12 if tier == 'quick' else 40
-    per = per or (14 if tier == 'quick' else 120)
-    maxlen = 120 if tier == 'quick' else 500
+    hi = 12 if tier == 'quick' else 30
+    per = per or (14 if tier == 'quick' else 60)
+    maxlen = 120 if tier == 'quick' else 300
     cases = []
     for name in (names or CAT.keys()):
         kinds, cfg, (dns, dfs) = CAT[name]
@@ -69,12 +69,13 @@ def gen_cases(rng, tier, names=None, per=None):
 KNOWN_C01 = None
 
 
-def run_both(cases, prefix='i'):
+def run_both(cases, prefix='i', spec=False):
+    """spec=True also evaluates the documented formula in the driver (slow: only C01 needs it)"""
     lines = []
     for i, (name, ns, fs, ins, regime) in enumerate(cases):
         lines.append('%s%d %s' % (prefix, i, ind_line(name, ns, fs, ins)))
     go = vlib.run_go(lines)
-    model = vlib.run_model(lines)
+    model = vlib.run_model(lines if spec else [l.replace(' IND ', ' INDM ', 1) for l in lines])
     return lines, go, model
 
 
@@ -254,7 +255,7 @@ def check_c01(res, tier, replay):
     findings = load_findings('C01')
     wit = [] if replay else witness_cases('C01')
     cases = replay_cases(replay) if replay else [w for w, _ in wit] + gen_cases(rng, tier)
-    lines, go, model = run_both(cases)
+    lines, go, model = run_both(cases, spec=True)
     mism = correspondence(res, cases, lines, go, model, 'C01')
     compared = exempt = bad_cases = 0
     cells = set()
@@ -284,11 +285,11 @@ def check_c01(res, tier, replay):
         bad_cases += 1
 
         def fails(cand):
-            l2, g2, m2 = run_both([cand], prefix='s')
+            l2, g2, m2 = run_both([cand], prefix='s', spec=True)
             gg, mm = parse_ind(g2.get('s0', 'x')), parse_ind(m2.get('s0', 'x'))
             return gg['status'] == 'ok' and mm['status'] == 'ok' and spec_compare(cand, gg, mm)[0] is not None
         small = shrink_case(c, fails) if n <= 200 else c
-        l2, g2, m2 = run_both([small], prefix='s')
+        l2, g2, m2 = run_both([small], prefix='s', spec=True)
         gg, mm = parse_ind(g2.get('s0', 'x')), parse_ind(m2.get('s0', 'x'))
         res.violation({'case': case_json(small), 'shrunk_from': n, 'first_difference': spec_compare(small, gg, mm)[0],
                        'go_output': [[h2f(v) for v in s] for s in gg.get('outs', [])],
